@@ -750,6 +750,33 @@ def o_c11_clock(tr):
                 yield {"oracle": "release-restarts-clock", "signature": "last!=block-time", "detail": "stream %s/%s released or re-rated in the block at %d, stored last release %d" % (r, sn, b["time"], st["last"])}
 
 
+def o_c11_rate(tr):
+    """a flow-rate change of a funded stream (the only transaction touching it in its block, a single message) recomputes the
+    advertised zero time from the settled remainder: block time + floor(remaining deposit / new rate) seconds, to the nanosecond
+    (c11_rate_change_restarts_the_clock)"""
+    for prev, b, d in states(tr):
+        if prev is None:
+            continue
+        for k, st in d.streams.items():
+            before = prev.streams.get(k)
+            if before is None or before["deposit"][0] <= 0:
+                continue
+            r, sn = k
+            touching = [t for t in b["txs"] if r in names_in(t) and sn in names_in(t) and any(x.startswith("str.") for x in t["kinds"])]
+            if len(touching) != 1 or touching[0]["kinds"] != ["str.rate"] or touching[0]["result"] != "ok":
+                continue
+            toks = touching[0]["line"].split()
+            i = toks.index("str.rate")
+            if len(toks) < i + 4 or addr_id(toks[i + 1]) != r or addr_id(toks[i + 2]) != sn or not re.match(r"^\d+$", toks[i + 3]):
+                continue
+            rate = int(toks[i + 3])
+            if rate <= 0 or st["rate"] != rate:
+                continue
+            want = b["time"] + (st["deposit"][0] // rate) * 10**9
+            if st["zero"] != want:
+                yield {"oracle": "rate-change-recomputes-zero-time", "signature": "zero", "detail": "stream %s/%s re-rated to %d at %d with %d left: zero time %d, want %d" % (r, sn, rate, b["time"], st["deposit"][0], st["zero"], want)}
+
+
 def o_c11_topup(tr):
     """a top-up of a running stream (the only transaction touching it in its block, a single message) extends the advertised
     zero time by floor(top-up / flow rate) seconds, adds exactly the top-up to the deposit and leaves the last-release time
@@ -1321,7 +1348,7 @@ def o_record_query(tr):
 
 ORACLES = {
     "C02": [o_c02, o_invariants, o_c03], "C03": [o_c03, o_c13], "C04": [o_c04, o_invariants], "C05": [o_c05, o_c05_granter, o_c05_amount], "C07": [o_c07, o_c08, o_c08_prune, o_record_query, o_import_same], "C08": [o_c08, o_c08_prune, o_record_query, o_import_same],
-    "C09": [o_c09, o_owner_writes, o_import_same, o_owner_canonical], "C10": [o_c10, o_c10_fee, o_invariants], "C11": [o_c11, o_c11_zero, o_c11_clock, o_c11_topup], "C12": [o_c12, o_c12_live, o_c11_topup, o_c16], "C14": [o_c14], "C16": [o_c16, o_c03, o_c06_plain, o_c08, o_decide_succeeds, o_c10_fee], "C18": [o_c18, o_c09, o_c15, o_c20, o_page_progress, o_c08, o_c08_prune],
+    "C09": [o_c09, o_owner_writes, o_import_same, o_owner_canonical], "C10": [o_c10, o_c10_fee, o_invariants], "C11": [o_c11, o_c11_zero, o_c11_clock, o_c11_topup, o_c11_rate], "C12": [o_c12, o_c12_live, o_c11_topup, o_c16], "C14": [o_c14], "C16": [o_c16, o_c03, o_c06_plain, o_c08, o_decide_succeeds, o_c10_fee], "C18": [o_c18, o_c09, o_c15, o_c20, o_page_progress, o_c08, o_c08_prune],
     "C13": [o_c13, o_owner_writes, o_import_same, o_c18], "C17": [o_c17, o_page_progress, o_c04], "C20": [o_c20, o_page_progress], "C15": [o_c15, o_invariants], "C06": [o_c06], "C01": [],
 }
 
